@@ -167,6 +167,12 @@ pub fn producer_body(ch: Arc<dyn Chan>, entry: Entry, ids: Vec<u64>, retries: u3
     })
 }
 
+/// drops a stream -- normally, or as a failing task does: while the thread unwinds from a panic (raised without the panic hook, caught right here)
+pub fn drop_stream<T>(strm: T, while_unwinding: bool) {
+    if !while_unwinding { drop(strm); return }
+    let _ = std::panic::catch_unwind(std::panic::AssertUnwindSafe(move || { let _owned_by_the_failing_task = strm; std::panic::resume_unwind(Box::new("the consumer's task failed")) }));
+}
+
 #[derive(Default)]
 pub struct ConsLog {
     /// (id, valid pattern, address, stamp)
@@ -183,6 +189,8 @@ pub struct ConsLog {
     pub tid:     AtomicU32,
     /// (stamp before, stamp after) the stream was dropped by its consumer
     pub drop_span: Mutex<Option<(u64, u64)>>,
+    /// the consumer's task fails once it is done with the stream: the stream is dropped while its thread unwinds from a panic (caught by the consumer itself)
+    pub drop_while_unwinding: AtomicBool,
     /// FREE lane: (after the k-th yield, milliseconds) -- the polling consumer stays away that long (a consumer that is busy elsewhere:
     /// the buffer fills up and the producers meet back-pressure for a while)
     pub stalls:  Mutex<Vec<(u32, u32)>>,
@@ -232,7 +240,7 @@ pub fn driven_consumer_body(mut strm: Box<dyn Strm>, fresh_wakers: bool, hold: H
         log.wakes.store(flag.wakes(), SeqCst);
         // the stream is dropped here (by the thread that polled it)
         let t0 = stamp();
-        drop(strm);
+        drop_stream(strm, log.drop_while_unwinding.load(SeqCst));
         *log.drop_span.lock().unwrap() = Some((t0, stamp()));
     })
 }
@@ -267,7 +275,7 @@ pub fn polling_consumer_body(mut strm: Box<dyn Strm>, hold: Hold, log: Arc<ConsL
             }
         }
         let t0 = stamp();
-        drop(strm);
+        drop_stream(strm, log.drop_while_unwinding.load(SeqCst));
         *log.drop_span.lock().unwrap() = Some((t0, stamp()));
     })
 }
